@@ -299,6 +299,8 @@ class Exec:
             return SV("real", t)
         if typ == "none":
             return NONE
+        if typ.startswith("const:"):
+            return S(typ[6:])
         if typ in TYPE_TAGS:
             t = z3.Const(name, Val)
             self.inputs[name] = t
@@ -1303,6 +1305,10 @@ class Exec:
             o.fields["__exc__"] = TRUE
             if args:
                 o.fields["message0"] = args[0]
+            return self.alloc(o)
+        if name in self.contract.stub_new and cref.cf is not None:
+            o = HObj(name, cref.cf, fresh_name(name.lower()))
+            o.fresh = True
             return self.alloc(o)
         if name in self.contract.opaque_new:
             t = z3.Const(fresh_name("new_" + name), Val)
@@ -2701,6 +2707,7 @@ def _merged_types(outer: Contract, inner: Contract):
     m.opaque = list(outer.opaque)
     m.backrefs = dict(outer.backrefs)
     m.opaque_new = list(outer.opaque_new)
+    m.stub_new = list(outer.stub_new)
     return m
 
 
